@@ -1016,6 +1016,7 @@ func ruleSetOps(r *Run) {
 		"OpOr":     "index=left iterate=right keep=absent prefix=left",
 		"OpUnless": "index=right iterate=left keep=absent prefix=none",
 	}
+	var mergeCls []*ssa.Function
 	for _, cr := range casesOf(fn, tag, consts, nil, nil) {
 		want, listed := spec[cr.Const]
 		if !listed {
@@ -1077,6 +1078,13 @@ func ruleSetOps(r *Run) {
 			o.Fail(r.pos(lk.Pos()), "the membership test is not evaluated per sample in a loop")
 			continue
 		}
+		mergeCls = append(mergeCls, cl)
+		// the loops that build a set of grouping keys (samplesSet or whatever plays its role): the
+		// slice they range over is the indexed side
+		setLens := map[ssa.CallInstruction]bool{}
+		for _, sb := range setBuildLoops(funcGroup(cl)) {
+			setLens[sb.Len] = true
+		}
 		for _, present := range []bool{true, false} {
 			w := &feWalker{Fn: cl, Assume: map[ssa.Value]constant.Value{okv: constant.MakeBool(present)}, Inline: inlineHelpers(cl), MaxPath: 3000}
 			for _, e := range w.Run() {
@@ -1095,9 +1103,13 @@ func ruleSetOps(r *Run) {
 							iterate = n
 						}
 					}
-					if callIs(c.Call, modPath+"/"+metricPkg, "samplesSet") && len(c.Args) > 0 {
+					if setLens[c.Call] && len(c.Args) > 0 {
 						if n := pname(c.Args[0].V); n != "?" {
-							index = n
+							if index != "?" && index != n {
+								index = "both"
+							} else {
+								index = n
+							}
 						}
 					}
 					if bi, ok := c.Call.Common().Value.(*ssa.Builtin); ok && bi.Name() == "append" && len(c.Args) == 2 {
@@ -1150,25 +1162,81 @@ func ruleSetOps(r *Run) {
 			}
 		})
 	}
-	if ss := p.Func(metricPkg, "samplesSet"); ss != nil {
-		check(ss)
-		// returns its own fresh map
-		for _, ret := range returnsOf(ss) {
-			if _, ok := ret.Results[0].(*ssa.MakeMap); !ok {
-				bad = true
-				of.Fail(r.pos(ret.Pos()), "samplesSet returns %s, not a map created in this call", describe(ret.Results[0], 0))
+	// every function the merge operations are made of, the set builder included
+	checked := map[*ssa.Function]bool{}
+	nBuilders := 0
+	for _, cl := range mergeCls {
+		grp := funcGroup(cl)
+		for _, sb := range setBuildLoops(grp) {
+			ss := sb.Fn
+			if checked[ss] {
+				continue
+			}
+			nBuilders++
+			// a builder that hands the set out returns its own fresh map
+			if _, isMap := ss.Signature.Results().At(0).Type().Underlying().(*types.Map); ss.Signature.Results().Len() == 1 && isMap {
+				for _, ret := range returnsOf(ss) {
+					if _, ok := ret.Results[0].(*ssa.MakeMap); !ok {
+						bad = true
+						of.Fail(r.pos(ret.Pos()), "%s returns %s, not a map created in this call", shortFuncName(ss), describe(ret.Results[0], 0))
+					}
+				}
 			}
 		}
-	} else {
+		for _, g := range grp {
+			if !checked[g] {
+				checked[g] = true
+				check(g)
+			}
+		}
+	}
+	if nBuilders == 0 {
 		bad = true
-		of.Fail("-", "samplesSet not found")
+		of.Fail(r.pos(fn.Pos()), "no loop building a set of grouping keys found in the merge operations")
 	}
 	for _, a := range fn.AnonFuncs {
-		check(a)
+		if !checked[a] {
+			check(a)
+		}
 	}
 	if !bad {
 		of.OK("samplesSet makes and returns a fresh map; merge closures mutate no captured map")
 	}
+}
+
+type setBuildLoop struct {
+	Fn  *ssa.Function
+	Len *ssa.Call // len(x) of the slice the loop ranges over
+}
+
+// setBuildLoops: range loops (in the given functions) that insert into a set of grouping keys
+// (map[GroupingKey]struct{}): the code that indexes one side of a set operation.
+func setBuildLoops(grp []*ssa.Function) []setBuildLoop {
+	var out []setBuildLoop
+	for _, g := range grp {
+		for _, l := range rangeIndexLoops(g) {
+			found := false
+			for b := range l.Blocks {
+				for _, in := range b.Instrs {
+					mu, ok := in.(*ssa.MapUpdate)
+					if !ok {
+						continue
+					}
+					mt, ok := mu.Map.Type().Underlying().(*types.Map)
+					if !ok || typeString(mt.Key()) != "uint64" {
+						continue
+					}
+					if st, ok := mt.Elem().Underlying().(*types.Struct); ok && st.NumFields() == 0 {
+						found = true
+					}
+				}
+			}
+			if found {
+				out = append(out, setBuildLoop{g, l.Len})
+			}
+		}
+	}
+	return out
 }
 
 // ruleStepBuffers: an iterator never hands its own long-lived slice out as the step's samples.
